@@ -14,7 +14,7 @@ import subprocess
 import sys
 
 VERIF = os.path.dirname(os.path.dirname(os.path.abspath(__file__)))
-ALL = ['C%02d' % i for i in range(1, 21) if i != 9]
+ALL = ['C%02d' % i for i in range(1, 21)]
 
 
 def sh(cmd, **kw):
@@ -39,6 +39,11 @@ def main():
             if os.path.exists(os.path.join(src, f)):
                 shutil.copy(os.path.join(src, f), os.path.join(dst, f))
         patch, chk = os.path.join(dst, 'patch.diff'), os.path.join(dst, 'check.py')
+        if os.path.exists(chk):
+            # the sub-agent's script may pin its own scratch worktree; here it runs against /repo
+            txt = open(chk).read()
+            if wt.rstrip('/') in txt:
+                open(chk, 'w').write(txt.replace(wt.rstrip('/'), '/repo'))
         if sh('git -C /repo status --porcelain').stdout.strip():
             print('refusing: /repo not clean')
             return 2
